@@ -82,12 +82,21 @@ func VerifH_C08_batcher() {
 		if vf.Param("limits", 1) == 1 {
 			e.Size = 1 + 2*vf.Choose("size", 2)
 		}
-		if vf.Param("kinds", 1) == 1 && vf.Choose("kind", 2) == 1 {
-			e.SetChildParentKind()
+		if vf.Param("kinds", 1) == 1 {
+			switch vf.Choose("kind", 3) {
+			case 1:
+				e.SetChildParentKind() // the parent of a split: committed, never sent
+			case 2:
+				e.SetChildKind() // a child of a split: sent like any other event
+			}
 		}
 		events[i] = e
 		addedAt[e] = vf.Now()
 		b.Add(e)
+		// a trickle: the next event may come a little later, but before the batch goes stale
+		if vf.Param("trickle", 0) == 1 && i+1 < K && vf.Choose("pause-before-next", 2) == 1 {
+			time.Sleep(180 * time.Millisecond)
+		}
 	}
 	vf.Quiesce(1000) // traffic stops; timers keep running (1 s of logical time without other activity)
 
